@@ -1650,6 +1650,14 @@ func c04Witness(r *Run, name string) {
 		if sa != sb {
 			r.Fail("purity:saved:sst-part-created", fmt.Sprintf("workbook without xl/sharedStrings.xml: a save after GetCellValue contains the part (%d bytes), a save without the read does not", len(sb)), 0, replay)
 		}
+	case "rows-limit": // repaired: GetRows swallowed ErrMaxRows and dropped the row being built
+		x := c04Hdr + `<row r="1"><c r="A1" t="str"><v>a</v></c></row><row r="1048577"/>` + c04Ftr
+		f := c04Open(c04Package(x))
+		defer f.Close()
+		g, err := f.GetRows("Sheet1")
+		if err == nil {
+			r.Fail("agree:getrows-swallows-row-limit", fmt.Sprintf("row r=1048577 after row 1: GetRows returns %q and a nil error", g), 0, replay)
+		}
 	case "search-panic":
 		f := xl.NewFile()
 		defer f.Close()
@@ -1686,7 +1694,7 @@ func runC04(r *Run, rng *Rng, replay string) {
 	// coverage of the getter list
 	r.Notes = append(r.Notes, fmt.Sprintf("read batch draws from %d exported read functions", len(c04Covered)))
 	// 0. witnesses (deterministic)
-	for _, w := range []string{"raw-rewrite", "materialise", "search-panic", "basecolor", "overlap-merge", "condstyle-write", "sst-created"} {
+	for _, w := range []string{"raw-rewrite", "materialise", "search-panic", "basecolor", "overlap-merge", "condstyle-write", "sst-created", "rows-limit"} {
 		c04Witness(r, w)
 	}
 	for _, k := range []string{"rless-mixed", "missing-r-search"} {
